@@ -319,25 +319,26 @@ Proof.
   - destruct (mlk n m) as [ch|] eqn:Lc; cbn [fst closedl pbc]; (split; [reflexivity|]); intros n' Hn;
       (split; [apply lookup_remove_neq; [exact E|exact Hn]|]); intros p1 ch1; unfold entry; cbn [children].
     + destruct (N.eq_dec p1 p) as [->|Hp].
-      * rewrite lookup_insert_eq by exact E. rewrite Lp. split.
-        -- intros [m1 [H1 H2]]. inversion H1; subst m1. rewrite lookup_remove_neq in H2 by (exact E || exact Hn).
-           exists m. split; [reflexivity|exact H2].
-        -- intros [m1 [H1 H2]]. inversion H1; subst m1. eexists. split; [reflexivity|].
-           rewrite lookup_remove_neq by (exact E || exact Hn). exact H2.
-      * rewrite lookup_insert_neq by (exact E || exact Hp). tauto.
+      * rewrite (store_back_entry p (mrm n m) (children d) n' ch1). rewrite Lp.
+        rewrite lookup_remove_neq by (exact E || exact Hn). split.
+        -- intros H. exists m. split; [reflexivity|exact H].
+        -- intros [m1 [H1 H2]]. inversion H1; subst m1. exact H2.
+      * rewrite store_back_other by exact Hp. tauto.
     + destruct (N.eq_dec p1 p) as [->|Hp].
-      * rewrite lookup_insert_eq by exact E. rewrite Lp. tauto.
-      * rewrite lookup_insert_neq by (exact E || exact Hp). tauto.
+      * rewrite (store_back_entry p m (children d) n' ch1). rewrite Lp. split.
+        -- intros H. exists m. split; [reflexivity|exact H].
+        -- intros [m1 [H1 H2]]. inversion H1; subst m1. exact H2.
+      * rewrite store_back_other by exact Hp. tauto.
   - cbn [fst closedl pbc]. split; [reflexivity|]. intros n' Hn.
     split; [apply lookup_remove_neq; [exact E|exact Hn]|]. intros p1 ch1; unfold entry; cbn [children].
     destruct (N.eq_dec p1 p) as [->|Hp].
-    + rewrite lookup_insert_eq by exact E. rewrite Lp. split; intros [m1 [H1 _]]; discriminate.
-    + rewrite lookup_insert_neq by (exact E || exact Hp). tauto.
+    + rewrite lookup_remove_eq by exact E. rewrite Lp. split; intros [m1 [H1 _]]; discriminate.
+    + rewrite lookup_remove_neq by (exact E || exact Hp). tauto.
   - cbn [fst closedl pbc]. split; [reflexivity|]. intros n' Hn.
     split; [apply lookup_remove_neq; [exact E|exact Hn]|]. intros p1 ch1; unfold entry; cbn [children].
     destruct (N.eq_dec p1 p) as [->|Hp].
-    + rewrite lookup_insert_eq by exact E. rewrite Lp. split; intros [m1 [H1 _]]; discriminate.
-    + rewrite lookup_insert_neq by (exact E || exact Hp). tauto.
+    + rewrite lookup_remove_eq by exact E. rewrite Lp. split; intros [m1 [H1 _]]; discriminate.
+    + rewrite lookup_remove_neq by (exact E || exact Hp). tauto.
 Qed.
 
 Definition untouched (h h' : hub) (n' : N) : Prop :=
